@@ -10,21 +10,47 @@ def cfg():
                              conservation=True)
 
 
+REAL_HALVING = 1_050_000
+
+
+def universe_for(kind):
+    """'easy' / 'genesis' with the real halving interval; 'easy-halving3': interval rebound to 3 so that the explored
+    chains cross two halvings (reward bound and conservation at halving heights)"""
+    from .. import seams
+    if kind == 'easy-halving3':
+        seams.halving_interval(3)
+        return ledger.tx_universe('easy')
+    seams.halving_interval(REAL_HALVING)
+    return ledger.tx_universe(kind)
+
+
 def _worker(arg):
     kind, hists, both = arg
     ledger.setup()
-    uni = ledger.tx_universe(kind)
+    uni = universe_for(kind)
     c = cfg()
     c.both_forms = both
-    return blockcheck.run_histories(c, uni, hists, c01.now_for(kind)) + (kind,)
+    return blockcheck.run_histories(c, uni, hists, c01.now_for('easy' if kind.startswith('easy') else kind)) + (kind,)
+
+
+def plan(ctx):
+    return [('easy', 3), ('easy-halving3', 3), ('genesis', 1)] if ctx.quick else [('easy', 4), ('easy-halving3', 4), ('genesis', 2)]
 
 
 def run(ctx):
-    c01.run(ctx, worker=_worker, prop='C02')
-    ctx.assumptions.append("chains cannot reach a halving height (1,050,000): conservation across a halving is the "
-                           "composition of this check (reward <= get_block_subsidy(h) + fees at every explored h, with "
-                           "the reference's own subsidy formula) with C16 (get_block_subsidy = schedule at every h)")
+    c01.run(ctx, worker=_worker, prop='C02', plan_fn=plan, universe_fn=universe_for)
+    from .. import seams
+    seams.halving_interval(REAL_HALVING)
+    ctx.assumptions.append("chains cannot reach the real halving height (1,050,000): halvings are crossed with the interval "
+                           "rebound to 3 blocks (universe 'easy-halving3'); the real interval is pinned by C16")
 
 
 def replay(data, ctx):
-    return c01.replay(data, ctx, cfgf=cfg)
+    from .. import seams
+    ledger.setup()
+    kind = data.get('uni') or 'easy'
+    uni = universe_for(kind)
+    try:
+        return c01.replay_one(cfg(), uni, data, c01.now_for('easy' if kind.startswith('easy') else kind))
+    finally:
+        seams.halving_interval(REAL_HALVING)
